@@ -72,6 +72,17 @@ def run_case(base, case, acc):
     rng = gen.rng_for("C18", base, case)
     rec = gen.network(rng, genes=0, finite=True, size=rng.randint(1, 3), allow_forced=rng.random() < 0.2)
     rec["direction"] = "max"
+    # exchanges with one-sided / forced export bounds as well
+    for r in rec["rxns"]:
+        if r["id"].startswith("EX_") and rng.random() < 0.25:
+            exportw = all(v < 0 for v in r["stoich"].values())
+            choice = rng.choice(["forced-export", "export-only", "import-only"])
+            if choice == "forced-export":
+                r["lb"], r["ub"] = (1, 10) if exportw else (-10, -1)
+            elif choice == "export-only":
+                r["lb"], r["ub"] = (0, 10) if exportw else (-10, 0)
+            else:
+                r["lb"], r["ub"] = (-10, 0) if exportw else (0, 10)
     with warnings.catch_warnings():
         warnings.simplefilter("ignore")
         model = gen.build(rec)
